@@ -40,22 +40,23 @@ impl Stream for Repeat {
         Ok(self.0.clone())
     }
     fn pythonic_slice(&self, lo: Option<isize>, hi: Option<isize>) -> NRes<Seq> {
-        let lo = match lo {
+        // i128: `x - 1` overflows isize for x == isize::MIN
+        let lo: i128 = match lo {
             Some(x) => {
                 if x < 0 {
-                    x - 1
+                    x as i128 - 1
                 } else {
-                    x
+                    x as i128
                 }
             }
             None => 0,
         };
-        let hi = match hi {
+        let hi: i128 = match hi {
             Some(x) => {
                 if x < 0 {
-                    x - 1
+                    x as i128 - 1
                 } else {
-                    x
+                    x as i128
                 }
             }
             None => -1,
